@@ -60,7 +60,11 @@ def _run_chunk(args):
     out = []
     for c in cases:
         try:
-            out.append(mod.run(c))
+            r = mod.run(c)
+            if isinstance(r, list):
+                out.extend(r)
+            else:
+                out.append(r)
         except Exception as e:   # harness bug or a crash of the real code outside run()'s own guard
             from core import Record
             r = Record(comp, {"harness_exception": "%s: %s" % (type(e).__name__, e)}, {})
